@@ -35,7 +35,7 @@ def gen(rng, tier):
         else:
             s = rng.choice(HEADS) + bytes(rng.choice([0, 0, 255, 39, 92, 96, 32, 64]) for _ in range(rng.randrange(1, 200)))
         cases.append((rng.choice(NAMES), s))
-    for n in ([4096, 30000] if tier == "quick" else [4096, 65536, 90000]):
+    for n in ([4096, 30000, 47000, 48500, 65536] if tier == "quick" else [4096, 47000, 48500, 65536, 90000]):
         cases.append((b"big.pl", b"# head\n" + bytes((i * 13 + 7) % 256 for i in range(n))))
     return cases
 
